@@ -127,10 +127,11 @@ package ompt
 //@   modifies *
 //@   opt no-callee-pre
 //@   opt inline-none
-//@   opt protect n.keys, n.keys[*], keys[*]
+//@   opt protect n.keys, n.keys[*], keys[*], n.hashValue, n.serialized, n.serialized[*], proof[*], proof[0][*]
 //@   requires n != nil
 //@   ensures [exact_key] err == nil ==> len(keys) == len(n.keys) && (forall i int :: {keys[i]} 0 <= i && i < len(keys) ==> keys[i] == n.keys[i])
 //@   ensures [same_node] typeof(nn) == typeid(ptr_leaf) && as(ptr_leaf, nn) == n
+//@   ensures [hashed_consumes_last] err == nil && n.hashValue != nil ==> len(proof) == 1 && seq(proof[0]) == seq(n.serialized)
 
 // a hash node is replaced only by the node deserialized from bytes that hash to it; a proof that
 // does not match leaves the hash node in place
@@ -196,3 +197,39 @@ package ompt
 //@   ensures [emits_when_hashed] err == nil && len(keys) == 0 && n.hashValue != nil ==> len(proof) == len(proofs) + 1 && proof[len(proofs)] == n.serialized
 //@   ensures [embedded_adds_nothing] err == nil && len(keys) == 0 && n.hashValue == nil ==> len(proof) == len(proofs)
 //@   callpre getProof: len(caller_keys) > 0 && n == caller_n.children[caller_keys[0]] && (caller_n.hashValue != nil ==> len(proofs) == len(old(caller_proofs)) + 1 && proofs[len(old(caller_proofs))] == caller_n.serialized) && (caller_n.hashValue == nil ==> proofs == old(caller_proofs))
+
+// a leaf emits itself exactly when it is referenced by hash and only for exactly its own key; an
+// extension emits itself when referenced by hash and hands on the key behind its nibbles
+//@ func (n *leaf) getProof(m, keys, items) (nn, proof, err)
+//@   arith int
+//@   nosafety
+//@   modifies *
+//@   opt no-callee-pre
+//@   opt inline-none
+//@   opt protect n.hashValue, n.serialized, n.keys, n.keys[*], keys[*]
+//@   requires n != nil
+//@   ensures [exact_key] err == nil && proof != nil ==> len(keys) == len(n.keys) && (forall i int :: {keys[i]} 0 <= i && i < len(keys) ==> keys[i] == n.keys[i])
+//@   ensures [emits_when_hashed] err == nil && proof != nil && n.hashValue != nil ==> len(proof) == len(items) + 1 && proof[len(items)] == n.serialized
+//@   ensures [embedded_adds_nothing] err == nil && n.hashValue == nil ==> proof == nil || proof == items
+//@ func (n *extension) getProof(m, keys, proofs) (nn, proof, err)
+//@   arith int
+//@   nosafety
+//@   modifies *
+//@   opt no-callee-pre
+//@   opt inline-none
+//@   opt protect n.hashValue, n.serialized, n.keys, n.keys[*], n.next, n.state, keys[*]
+//@   requires n != nil && n.next != nil
+//@   callpre getProof: n == caller_n.next && ref(keys) == ref(caller_keys) && off(keys) == off(caller_keys) + len(caller_n.keys) && len(keys) == len(caller_keys) - len(caller_n.keys) && (forall i int :: {caller_keys[i]} 0 <= i && i < len(caller_n.keys) ==> caller_keys[i] == caller_n.keys[i])
+//@   callpre getProof: (caller_n.hashValue != nil ==> len(proofs) == len(old(caller_proofs)) + 1 && proofs[len(old(caller_proofs))] == caller_n.serialized) && (caller_n.hashValue == nil ==> proofs == old(caller_proofs))
+
+// entry points: the walk starts at the root with all nibbles of the key and the whole proof; the
+// root is replaced by what the walk returns
+//@ func (m *mpt) Prove(k, proofs) (obj, err)
+//@   arith int
+//@   nosafety
+//@   modifies *
+//@   opt no-callee-pre
+//@   opt inline-none
+//@   opt protect m.root
+//@   requires m != nil
+//@   callpre prove: n == caller_m.root && proof == caller_proofs && keys == caller_nibs && m == caller_m
